@@ -23,6 +23,7 @@ from . import gen, observe
 SIZE_HINT = ("volume", "surface_area", "area", "perimeter", "circumference", "radius",
              "diameter", "mean_curvature", "a", "b", "c")
 POINT_PROPS = ("centroid", "center")
+RESTORABLE = ("radius", "a", "b", "c", "volume", "area", "surface_area", "perimeter")
 
 
 def is_size_prop(name):
@@ -143,6 +144,13 @@ def gen_steps(rng, obj, n, *, bad_rate=0.0, malformed_rate=0.0, setter_bias=1.0,
                              "f": rng.uniform(0.5, 2.0)}
             else:
                 f = 10 ** rng.uniform(-factor_decades, factor_decades)
+                if name in RESTORABLE and rng.chance(0.12):
+                    # save / change / restore: assign exactly the value the property had
+                    # when the run started (old = s.radius; s.volume = ...; s.radius = old)
+                    st["arg"] = {"kind": "restore"}
+                    st["win"] = [ext_range[0], ext_range[1], coord_max]
+                    steps.append(st)
+                    continue
                 if rng.chance(0.08):
                     # a target next to the current value (but not equal to it)
                     f = 1.0 + rng.choice([-1.0, 1.0]) * 10 ** rng.uniform(-9, -3)
@@ -211,6 +219,19 @@ def resolve_arg(obj, st, world=None):
         return p, None
     if kind == "abs_zero":
         return 0.0, None
+    if kind == "restore":
+        init = (world.__dict__.get("_cxv_initial", {}) if world is not None else {}).get(id(obj), {})
+        cur = None
+        try:
+            with warnings.catch_warnings():
+                warnings.simplefilter("ignore")
+                cur = float(getattr(obj, name))
+        except Exception:  # noqa: BLE001
+            cur = None
+        v = init.get(name)
+        if v is None or not np.isfinite(v) or (v <= 0 and name != "radius"):
+            v = cur if cur is not None else extent(obj)
+        return float(v), cur
     cur = None
     try:
         with warnings.catch_warnings():
@@ -258,8 +279,21 @@ def apply(obj, st, world, scribble=False, reuse=None):
         tgt = obj
     out = {"outcome": "ok", "exc": None, "value": None, "cur": None}
     with world.step(st["pyseed"] ^ 0x1111, st["npseed"] ^ 0x2222, use_fs=False):
+        init = world.__dict__.setdefault("_cxv_initial", {})
+        for o in (obj, target_of(obj)):
+            if o is not None and id(o) not in init:
+                vals = {}
+                for n in RESTORABLE:
+                    if isinstance(getattr(type(o), n, None), property):
+                        try:
+                            with warnings.catch_warnings():
+                                warnings.simplefilter("ignore")
+                                vals[n] = float(getattr(o, n))
+                        except Exception:  # noqa: BLE001
+                            pass
+                init[id(o)] = vals
         if st["op"] == "set":
-            out["value"], out["cur"] = resolve_arg(tgt, st)
+            out["value"], out["cur"] = resolve_arg(tgt, st, world)
     # the harness's own reading of the current value may have gone through the solver
     out["pre_attempts"] = list(world.solver.attempts)
     with world.step(st["pyseed"], st["npseed"], solver_script=st.get("solver_script"),
